@@ -910,6 +910,17 @@ func globalWrites(p *Program, report func(fn *ssa.Function, ins ssa.Instruction,
 							report(fn, ins, g)
 						}
 					}
+					// a package-level pool or concurrent map used as a container: Get hands out what
+					// another call Put in, Store/Delete change what every caller sees
+					if sc := x.Call.StaticCallee(); sc != nil && sc.Pkg != nil && sc.Pkg.Pkg.Path() == "sync" && sc.Signature.Recv() != nil && len(x.Call.Args) > 0 {
+						owner := deref(sc.Signature.Recv().Type())
+						if isNamed(owner, "sync", "Pool") && (sc.Name() == "Put" || sc.Name() == "Get") ||
+							isNamed(owner, "sync", "Map") && (sc.Name() == "Store" || sc.Name() == "LoadOrStore" || sc.Name() == "Delete" || sc.Name() == "LoadAndDelete" || sc.Name() == "Swap") {
+							if g := rootGlobal(x.Call.Args[0]); g != nil {
+								report(fn, ins, g)
+							}
+						}
+					}
 				}
 			}
 		}
